@@ -114,3 +114,28 @@ PROPS['C16'] = dict(
     level_text='Unbounded theorems: the store\'s own proof verifies for every present key and every absent key of every state (completeness), and for ARBITRARY proof lists an accepted membership / non-membership claim is true of the state (soundness, ideal hash); an honest proof for one key is never evidence about the absence of another present key. The verifier model is compared with the real VerifyProof on honest, cross-key and mutated proofs on every run; store-level completeness (read-only store at version v against the committed root of v) is exercised on the real Store. The unrepaired code violated soundness, completeness at store level and crash-freedom: three fix: commits.',
     level_note='Trusted: Coq kernel, hand-written mirror tied by correspondence, ideal hash. Crash-freedom on malformed proofs is exercised (mutations under recover), not proved.',
 )
+
+PROPS['C02'] = dict(
+    props='props/C02.v',
+    models=['Cert'],
+    harness='c02',
+    args=dict(quick=['-heights', '10', '-variants', '22'], escalated=['-heights', '30', '-variants', '30'], thorough=['-heights', '120', '-variants', '40']),
+    fingerprint_groups=['Cert'],
+    rule='a real controller.Controller is driven height by height; at every height the honest proposal is certified with REAL BLS signatures of a '
+         'weighted committee (4-9 members incl. a 1-stake and a 0-stake member, sometimes a dominant one) and delivered through the real HandlePeerBlock '
+         'in 20+ variants: signer subsets at maj23-1 / maj23 / random / all, bitmap bits of members that did not sign (preceded by the genuine '
+         'minority certificate with the same aggregate signature: two-step replay), padded bitmaps, wrong-length bitmaps, signatures honestly produced '
+         'for another round / phase / height / root height / chain / block / results / proposer, consistent certificates of non-commit phases (incl. '
+         '+2/3 ELECTION_VOTE with a block attached), other chain / network / height, swapped or missing results, missing block, block of another '
+         'height; observable: store.Version() before/after; distinct by literal, every variant is non-trivial',
+    modelled='hand-modelled: the check cascade of HandlePeerBlock (CheckBasic, View.Check, size, AggregateSignature.Check, partial flag, '
+             'CheckProposalBasic, phase) as a decision function over a structured certificate with symbolic aggregate signatures. Generated from '
+             'source: phase constants, the threshold (via C13). Abstracted: the state-machine re-execution (b_applies) - C03/C11; the byte-level '
+             'sign-bytes encoding - C19; the fast-sync path (exempted by the property); CheckAndSetLastCertificate of the PREVIOUS certificate inside '
+             'the block (exercised implicitly by the multi-height run, not modelled).',
+    assumptions=['ideal BLS aggregate verification (an aggregate verifies under a bitmap iff it is exactly the enabled members each signing this payload)',
+                 'sign bytes are an injective encoding of (view, block hash, results hash, proposer) (C19)', 'committee total power < 2^63'],
+    trusted_base=['model/Cert.v is a hand-written mirror of the peer-block admission checks tied by the correspondence run on the real controller with real BLS'],
+    level_text='Unbounded theorems over the admission decision function: a commit implies every clause of the property (exact block/results binding, network, chain, next height, commit phase, every named member really signed this payload, real signed power >= floor(2T/3)+1), partial / forged / re-targeted / wrong-phase / wrong-target certificates never commit, padding bits are irrelevant, and a well-formed +2/3 certificate is accepted. The model is compared with the real HandlePeerBlock on certificates assembled from real BLS signatures every check.',
+    level_note='Trusted: Coq kernel, hand-written mirror tied by correspondence, ideal BLS, sign-bytes injectivity (C19). The state-machine re-execution inside CommitCertificate is abstracted to a flag; the sync path is outside the property.',
+)
